@@ -17,6 +17,7 @@ pub broadcast axiom fn own_of_view<T: OwnView>(t: &T) ensures #[trigger] own_of(
 impl<T: OwnView> OwnView for &T { open spec fn own(&self) -> Own { (**self).own() } }
 impl OwnView for u64 { open spec fn own(&self) -> Own { own_none() } }
 impl OwnView for bool { open spec fn own(&self) -> Own { own_none() } }
+impl<T> OwnView for core::marker::PhantomData<T> { open spec fn own(&self) -> Own { own_none() } }
 impl<T: OwnView> OwnView for Option<T> { open spec fn own(&self) -> Own { match self { Some(t) => t.own(), None => own_none() } } }
 
 // channel.rs: `ChanTx<A> = Arc<dyn TxFn<A>>` etc. (rule T1 maps the alias right-hand sides to these stand-ins)
